@@ -198,6 +198,7 @@ type Rec struct {
 	// AfterCreate runs when a sequence method has returned its sequence, before it is ranged over
 	AfterCreate func()
 	NoBatch     bool
+	Light       bool // no digest per line (dg = ""): only for runs whose invariants do not use digests
 	probes      []int
 	iterOnly    []string
 }
@@ -289,6 +290,18 @@ func (r *Rec) tail(pan string, withDump bool) {
 		tr.fStr("sg", "")
 		tr.fBool("hasd", false)
 		r.out()
+		return
+	}
+	if r.Light && !withDump {
+		// cheap line: no structural walk (used where many operations matter more than a digest per call)
+		tr.fInt("sz", r.D.Size())
+		tr.fStr("dg", "")
+		if !r.batch {
+			tr.fStr("sg", "")
+		}
+		tr.fBool("hasd", false)
+		r.out()
+		r.Ops++
 		return
 	}
 	var n *art.VerifNode
